@@ -399,6 +399,28 @@ def _yielded_with_successor(ctx, f, kb):
     src = peel(peel(t[1])[1])
     if not (src[0] == 'call' and src[1] in ('std::iter::Iterator::find', 'std::iter::Iterator::next') or (src[0] == 'call' and is_next(src))):
         return False
+    # (a) std adaptor chain: the item passed `take_while(|n| !(*n).next.is_null())` / `filter(..)` and nothing re-maps it afterwards
+    recv = peel_c(src[2][0]) if src[2] else None
+    while recv is not None and recv[0] == 'call' and recv[1].split('::')[-1] in ('into_iter', 'by_ref', 'peekable', 'fuse') and recv[2]:
+        recv = peel_c(recv[2][0])
+    if recv is not None and recv[0] == 'call' and recv[1] in ('std::iter::Iterator::take_while', 'std::iter::Iterator::filter') and len(recv[2]) == 2:
+        cl = peel(recv[2][1])
+        g = P.fns.get(cl[1][len('closure:'):]) if cl[0] == 'agg' and str(cl[1]).startswith('closure:') else None
+        if g is not None:
+            ctx.touch(g)
+            rts = [peel(t2) for _, t2 in ret_trees(g)]
+            def has_succ(t2):
+                if not (t2[0] == 'un' and t2[1] == 'Not'):
+                    return False
+                c = peel(t2[2])
+                if not (c[0] == 'call' and c[1].endswith('::is_null') and c[2]):
+                    return False
+                sub = peel(c[2][0])
+                base = peel_c(sub[1]) if sub[0] == 'field' and sub[2] == 'next' else None
+                return base is not None and base[0] == 'arg' and base[1] == 2
+            if rts and all(has_succ(t2) for t2 in rts):
+                return True
+        return False
     sites = [c for c in f.calls() if c.name == src[1] and c.argtys]
     if len(sites) != 1:
         return False
